@@ -543,6 +543,7 @@ class SigmaCorrelationRule(SigmaRuleBase, ProcessingItemTrackingMixin):
                         f"'{ correlation_type }' is no valid Sigma correlation type", source=source
                     )
                 )
+                correlation_type = None  # don't pass the invalid value on to the rule object
         else:  # no correlation type provided
             errors.append(
                 sigma_exceptions.SigmaCorrelationTypeError(
